@@ -116,9 +116,30 @@ def base_cfg(r, hq):
     return cfg
 
 
+def concurrent_workers(ctx, rounds):
+    """the seen-store under several preprocessor workers at once (the pipeline runs --workers of them): every worker checks its own,
+    distinct URLs; each URL, recorded by its first check, must be reported seen by a later check"""
+    r = ctx.rng
+    lines = [json.dumps({"op": "open"})]
+    for k in range(rounds):
+        lines.append(json.dumps({"op": "burst", "workers": r.choice([2, 4, 8, 16]), "each": r.choice([50, 200, 400]), "tag": "t%d" % k}))
+    lines.append(json.dumps({"op": "close"}))
+    rc, out, err = core.run_impl("seen", lines, timeout=600)
+    if rc != 0 or len(out) != len(lines):
+        raise RuntimeError("harness seen: exit %s %s %s" % (rc, out[-2:], err[-500:]))
+    for l, o in zip(lines[1:-1], out[1:-1]):
+        ctx.count("concurrent-seencheck-bursts")
+        ctx.case("burst" + l, True)
+        if not o.startswith("checked=") or " bad=0 " not in o:
+            ctx.violation("seen-store under concurrent workers: %s (each URL was checked once by one worker, then once more: the second check must "
+                          "report it as seen, the first must not)" % o[:300], {"domain": "seen", "ops": [json.loads(lines[0]), json.loads(l)]})
+            return
+
+
 def run(ctx):
     n = 1500 if ctx.thorough() else 60
     r = ctx.rng
+    concurrent_workers(ctx, 40 if ctx.thorough() else 4)
     h = core.Interactive("stage")
     run_ = stage.Run(ctx, h)
     try:
@@ -142,6 +163,12 @@ def run(ctx):
 
 def replay(ctx, doc):
     rp = doc.get("replay", doc)
+    if rp.get("domain") == "seen":
+        rc, out, err = core.run_impl("seen", [json.dumps(o) for o in rp["ops"]] + [json.dumps({"op": "close"})], timeout=600)
+        for o in out[1:-1]:
+            if " bad=0 " not in o:
+                ctx.violation("replay: seen-store under concurrent workers: %s" % o[:300], rp)
+        return
     if "cfg" in rp and "seeds" in rp:
         h = core.Interactive("stage")
         run_ = stage.Run(ctx, h)
